@@ -5,7 +5,9 @@
 
      collect_doc      metadata_manager.refresh() = _read_metadata_file = json.loads + _dict_to_metadata on the current
                       metadata file: a document the reader refuses makes collect() raise before it has deleted anything
-                      (DocRefused); otherwise collect() runs on the manifest lists of ALL the document's snapshots.
+                      (DocRefused); so does a document whose current_snapshot_id names none of the snapshots it lists
+                      (collect()'s _require_current_snapshot_listed: the snapshot list lost at least the current snapshot);
+                      otherwise collect() runs on the manifest lists of ALL the document's snapshots.
      list_records_content / manifest_records_content
                       the content class (Model/GC.v `content`) of an Avro manifest list / manifest given its decoded
                       records: the reader converts the records one by one (a record it refuses ends the read with an
@@ -29,6 +31,10 @@ Definition demands_section_strings (sh : shape) (section k : string) : bool :=
   | _ => false
   end.
 
+(* the reader of `sh` demands: key `section` is there (subscripted) and is a LIST (isinstance guard) *)
+Definition demands_list_section (sh : shape) (section : string) : bool :=
+  match field_shape section (shape_req sh) with Some (SSeq true _) => true | _ => false end.
+
 (* the reader of `sh` subscripts key k (KeyError when it is missing) *)
 Definition demands_key (sh : shape) (k : string) : bool :=
   match field_shape k (shape_req sh) with Some _ => true | None => false end.
@@ -40,8 +46,65 @@ Definition doc_lists (d : jv) : list string :=
 
 Inductive doc_result := DocRefused | DocRun (r : result).
 
+(* Python `a == b` on decoded values: numbers by value (True == 1, False == 0), strings, None, lists element-wise, dicts
+   as key -> value maps (json.loads never yields a dict with a repeated key).  JOther (a float that is not an integer,
+   bytes) compares unequal to everything: the model does not look into such values. *)
+Fixpoint py_eqb (a b : jv) {struct a} : bool :=
+  match a, b with
+  | JNull, JNull => true
+  | JBool x, JBool y => Bool.eqb x y
+  | JBool x, JNum y => Z.eqb (if x then 1 else 0) y
+  | JNum x, JBool y => Z.eqb x (if y then 1 else 0)
+  | JNum x, JNum y => Z.eqb x y
+  | JStr x, JStr y => String.eqb x y
+  | JArr l, JArr m =>
+      (fix go (l m : list jv) {struct l} : bool :=
+         match l, m with
+         | [], [] => true
+         | x :: l', y :: m' => py_eqb x y && go l' m'
+         | _, _ => false
+         end) l m
+  | JObj fs, JObj gs =>
+      Nat.eqb (List.length fs) (List.length gs)
+      && (fix go (fs : list (string * jv)) {struct fs} : bool :=
+            match fs with
+            | [] => true
+            | kv :: r => match assoc (fst kv) gs with Some v' => py_eqb (snd kv) v' | None => false end && go r
+            end) fs
+  | _, _ => false
+  end.
+
+(* GarbageCollector._require_current_snapshot_listed on the document (TableMetadata.current_snapshot_id and
+   Snapshot.snapshot_id are the document's values at gen_current_snapshot_key / gen_snapshot_id_key, passed on unchanged):
+       current_id = metadata.current_snapshot_id
+       if current_id is None or current_id == -1: return                     -- "no snapshot yet"
+       for snapshot in metadata.snapshots: if snapshot.snapshot_id == current_id: return
+       raise GarbageCollectionAborted
+   The helper's body is pinned by translator/gen_norm.py; whether collect() calls it (after refresh(), before the first
+   sweep) is the regenerated COLLECT_CHECKS_CURRENT_SNAPSHOT. *)
+Definition current_unset (c : jv) : bool :=
+  match c with JNull => true | _ => py_eqb c (JNum CURRENT_UNSET_NUM) end.
+Definition snapshot_has_id (c : jv) (it : jv) : bool :=
+  match py_getitem it gen_snapshot_id_key with Some i => py_eqb i c | None => false end.
+Definition current_listed (d : jv) : bool :=
+  match py_getitem d gen_current_snapshot_key, py_getitem d gen_snapshots_key with
+  | Some c, Some (JArr items) => current_unset c || existsb (snapshot_has_id c) items
+  | _, _ => false
+  end.
+
+(* specification vocabulary: the document names a current snapshot (its current_snapshot_id is not null and not -1, "no
+   snapshot yet") and NONE of the snapshots it lists has that id -- the document contradicts itself about which snapshots
+   the table has (`snapshots: []` under a set current_snapshot_id; the current snapshot gone from the list) *)
+Definition dangling_current (d : jv) : Prop :=
+  exists c items, py_getitem d gen_current_snapshot_key = Some c /\ py_getitem d gen_snapshots_key = Some (JArr items)
+    /\ c <> JNull /\ py_eqb c (JNum (-1)) = false
+    /\ forall it, In it items -> forall i, py_getitem it gen_snapshot_id_key = Some i -> py_eqb i c = false.
+
 Definition collect_doc (ext : string -> jv -> bool) (tp : string) (grace now timeout : Z) (o : oracle) (d : jv) (st : store) : doc_result :=
-  if accepts ext gen_metadata_shape d then DocRun (gc_run tp grace now timeout o (doc_lists d) st) else DocRefused.
+  if accepts ext gen_metadata_shape d then
+    if negb COLLECT_CHECKS_CURRENT_SNAPSHOT || current_listed d then DocRun (gc_run tp grace now timeout o (doc_lists d) st)
+    else DocRefused
+  else DocRefused.
 
 Definition doc_deleted (r : doc_result) : list key := match r with DocRefused => [] | DocRun r => r_deleted r end.
 
@@ -107,6 +170,12 @@ Definition manifest_json_content (ext : string -> jv -> bool) (d : jv) : content
 (* rendering for the correspondence harness: 0 = refused; 1 = accepted with these manifest lists *)
 Definition render_decode (ext : string -> jv -> bool) (d : jv) : Z * list string :=
   if accepts ext gen_metadata_shape d then (1, doc_lists d) else (0, []).
+(* 0 = the reader refuses the document; 1 = accepted, the collection runs on these lists; 2 = accepted by the reader, refused
+   by the collector (dangling current_snapshot_id) *)
+Definition render_collect_decision (ext : string -> jv -> bool) (d : jv) : Z * list string :=
+  if accepts ext gen_metadata_shape d then
+    if negb COLLECT_CHECKS_CURRENT_SNAPSHOT || current_listed d then (1, doc_lists d) else (2, doc_lists d)
+  else (0, []).
 Definition content_code (c : content) : Z * list string :=
   match c with
   | CList FAvro ps => (1, ps) | CList FJson ps => (2, ps) | CManifest FAvro ps => (3, ps) | CManifest FJson ps => (4, ps)
